@@ -195,6 +195,42 @@ def r3(run: Run, rt):
 
 
 # ---------------------------------------------------------------------------------------------------
+def r4_eval(run: Run, rt):
+    """NETWORKDAYS decided by abstract evaluation (engine F): days are carried as day numbers whose weekday is known (day 0 is a
+    Monday); the count of Monday-Friday dates of the inclusive interval minus the listed holidays, negated when reversed"""
+    from ..finite import Evaluator, AV, const_av, Unknown, AbsRaise
+
+    def dt(n):
+        return AV('datetime', val=('day', n))
+    text, none = AV('str', text='other', val='x'), const_av(None)
+    # (start, end, holidays, expected, what)
+    hol = AV('list', items=(AV('list', items=(dt(2), dt(5), text)), none, AV('list', items=(dt(9), dt(30)))))
+    cases = [(0, 13, None, 10, 'two full weeks'), (0, 0, None, 1, 'a single Monday'), (5, 6, None, 0, 'a weekend only'),
+             (4, 7, None, 2, 'Friday to Monday'), (13, 0, None, -10, 'reversed interval'),
+             (0, 13, hol, 8, 'holidays on a Wednesday, a Saturday, a second-week Wednesday and outside the interval'),
+             (13, 0, hol, -8, 'reversed interval with the same holidays'), (0, 13, AV('list', items=()), 10, 'empty holiday list'),
+             (2, 2, AV('list', items=(AV('list', items=(dt(2),)),)), 0, 'the only day is a holiday')]
+    for cp in rt.copies():
+        fn = cp.members.get('_network_days')
+        if fn is None:
+            continue
+        for a_, b_, h_, want, what in cases:
+            ev = Evaluator(cp.members, max_depth=8)
+            args = [dt(a_), dt(b_)] + ([h_] if h_ is not None else [])
+            construct = f'_network_days[{cp.label}]/{what}'
+            try:
+                res = ev.call_method('_network_days', args)
+            except Unknown as u:
+                raise AnalysisError('C15.R4', f'{construct}: the abstraction cannot follow the helper ({u})')
+            except AbsRaise as r_:
+                run.bad('C15.R4', construct, f'raises:{r_.exc}', f'_network_days raises {r_.exc} ({what})', loc=cp.loc(fn))
+                continue
+            run.check(res.val == want, 'C15.R4', construct, 'workday-count',
+                      f'NETWORKDAYS from day {a_} to day {b_} (day 0 is a Monday; {what}) gives {res.val!r}; the Monday-Friday dates '
+                      f'of the inclusive interval minus the listed holidays that fall on them are {want}', fact=f'-> {res.val!r}',
+                      loc=cp.loc(fn))
+
+
 def r4(run: Run, rt):
     for cp in rt.copies():
         fn = cp.members.get('_network_days')
@@ -666,7 +702,31 @@ def run(run: Run):
     run.guard('C15.R1', check_plumbing, run, 'C15.R1', src, em, rt, FUNCS)
     run.guard('C15.R2', r2, run, rt)
     run.guard('C15.R3', r3, run, rt)
-    run.guard('C15.R4', r4, run, rt)
+    def _r4_both(run, rt):
+        sub = Run('tmp', run.tier, run.seed, quiet=True)
+        try:
+            r4_eval(sub, rt)
+        except AnalysisError as e:
+            run.note(f'C15.R4 evaluation skipped: {e.reason[:120]}')
+            return r4(run, rt)
+        for o in sub.obligations:
+            if o['verdict'] == 'holds':
+                run.ok(o['rule'], o['construct'], o['fact'], loc=o['loc'])
+        for f in sub.findings:
+            run.bad(f['rule'], f['construct'], f['sub'], f['message'], loc=f['loc'])
+        # the structural reading adds obligations (holiday subtraction, sign) when the loop is written in a modelled form
+        sub2 = Run('tmp', run.tier, run.seed, quiet=True)
+        try:
+            r4(sub2, rt)
+        except AnalysisError:
+            return
+        if not sub2.errors:
+            for o in sub2.obligations:
+                if o['verdict'] == 'holds':
+                    run.ok(o['rule'], o['construct'], o['fact'], loc=o['loc'])
+            for f in sub2.findings:
+                run.bad(f['rule'], f['construct'], f['sub'], f['message'], loc=f['loc'])
+    run.guard('C15.R4', _r4_both, run, rt)
     run.guard('C15.R5', r5, run, rt)
     run.guard('C15.R6', r6, run, rt)
     run.guard('C15.R7', r7, run, rt)
@@ -684,7 +744,7 @@ def run(run: Run):
     run.floor('C15.R1', 9)
     run.floor('C15.R2', 6)
     run.floor('C15.R3', 12)
-    run.floor('C15.R4', 30)
+    run.floor('C15.R4', 18)
     run.floor('C15.R5', 4)
     run.floor('C15.R6', 10)
     run.floor('C15.R7', 20)
